@@ -266,6 +266,10 @@ impl img::DiskImage for Dot2mg {
         let buf_len = u32::from_le_bytes(self.header.data_len);
         let rem_len = self.comment.len() as u32;
         let cre_len = self.creator_info.len() as u32; 
+        if self.header.img_fmt==[1,0,0,0] {
+            // readers (including this one) insist on blocks matching the data for ProDOS order
+            self.header.blocks = u32::to_le_bytes(self.raw_img.byte_capacity() as u32 / BLOCK_SIZE);
+        }
         self.header.data_offset = u32::to_le_bytes(64);
         self.header.comment_offset = u32::to_le_bytes(match rem_len { 0 => 0, _ => 64+buf_len });
         self.header.comment_len = u32::to_le_bytes(rem_len);
